@@ -48,6 +48,8 @@ META = {
 def run(ctx):
     obs = ctx.obs
     obs.extra['meta'] = META
+    from ..model import set_declaration_order_varies
+    set_declaration_order_varies(True)     # some datasets declare the x dimension before y
     from ..model.grids import set_wide_longitudes
     set_wide_longitudes(True)      # also datasets in the 0..360 convention / straddling 180 degrees
     contracts.attach_all(obs, only={'ravel_dimensions', 'make_polygons_with_holes'})
